@@ -46,6 +46,7 @@ RULE = ("work items = {serialize -> parse -> convert of generated instances of a
         "mis-nested documents); type conversions that re-register dispatch handlers}. Each item runs (a) in a pristine child process, (b) in a "
         "dirty process: shuffled, after failing items, 3x in a row, (c) under 2/4/8/16 threads with yield injection, (d) in a fresh interpreter whose 8 (2/8/16) threads are released together before every item, so that the first use of every class is raced; items of kind 'limits' offer one shared pool of texts to string elements with different limits. A case = (item, phase); "
         "non-trivial = result compared with the pristine baseline")
+RULE += " Added later: the pristine child runs under ANOTHER host time zone; per nested aggregate the keys of __dict__ and every undeclared value; whole OFX responses / requests incl. serialize() overrides; vendor extensions in converted trees; decimal texts under a thread's foreign arithmetic context; cold threads."
 ASSUMPTIONS = ["canonical results: fingerprints of bytes, reference-shaped element tree and modelwalk snapshot; failing inputs compare by exception type",
                "thread schedules are whatever the GIL + injected yields produced; the evidence reports the switches observed (never 'all interleavings')",
                "mutating shared state is not in itself forbidden by the statement: a changed fingerprint alone is reported, not failed"]
